@@ -37,6 +37,7 @@ type LoopSpec struct {
 	Key        string // source text key: `range db.puts` / `for i < n`
 	Ordinal    int    // among loops with equal key in the function (1-based)
 	Unroll     int
+	Exhaustive bool // the loop is left only from its head (range exhausted / condition false), never by break or goto
 	Invariants []*Clause
 	Havoc      []string // extra modifies hints
 }
@@ -138,8 +139,8 @@ func parseSpecFile(path string) ([]*Block, error) {
 			return nil, fmt.Errorf("%s:%d: clause outside block: %s", path, ln+1, body)
 		case kw == "loop":
 			curLoop = &LoopSpec{Ordinal: 1}
-			// loop "key" [#n] [unroll k]
-			m := regexp.MustCompile(`^"([^"]*)"\s*(#(\d+))?\s*(unroll\s+(\d+))?$`).FindStringSubmatch(rest)
+			// loop "key" [#n] [unroll k] [exhaustive]
+			m := regexp.MustCompile(`^"([^"]*)"\s*(#(\d+))?\s*(unroll\s+(\d+))?\s*(exhaustive)?$`).FindStringSubmatch(rest)
 			if m == nil {
 				return nil, fmt.Errorf("%s:%d: bad loop clause: %s", path, ln+1, rest)
 			}
@@ -150,6 +151,7 @@ func parseSpecFile(path string) ([]*Block, error) {
 			if m[5] != "" {
 				curLoop.Unroll, _ = strconv.Atoi(m[5])
 			}
+			curLoop.Exhaustive = m[6] != ""
 			cur.Loops = append(cur.Loops, curLoop)
 		case clauseKW[kw]:
 			cl := &Clause{Kind: kw, Text: rest, File: path, Line: ln + 1}
